@@ -2,6 +2,7 @@ package main
 
 import (
 	"go/ast"
+	"go/token"
 	"go/types"
 	"strings"
 )
@@ -693,4 +694,245 @@ func ruleNoSharedElement(c *Ctx) {
 		c.und("loops", 0, "only %d loops found in internal/server", nLoops)
 	}
 	c.ok("loops", 0, false, "%d loops scanned, %d appends of a map, pointer or slice variable", nLoops, nAppends)
+}
+
+func init() {
+	register(&Rule{ID: "R17.fields-recorded-with-object", Props: []string{"C17"}, Floor: 1,
+		Text: "the JSON form of a search reply prints, for every object, the values of the field names collected in scanWriter.fkeys while the RESP form prints each object's own fields; the two agree only if an object that is kept for the reply (appended to scanWriter.filled) has had its field names recorded: in the function that appends to filled, the statement that records into fkeys (or the test that guards it) lies on every path that passes the append — it dominates the append, or no return is reachable from the append without it",
+		Run:  ruleFieldsRecorded})
+}
+
+func ruleFieldsRecorded(c *Ctx) {
+	filled := c.Field("internal/server", "scanWriter", "filled")
+	fkeys := c.Field("internal/server", "scanWriter", "fkeys")
+	if filled == nil || fkeys == nil {
+		c.und("anchors", 0, "scanWriter.filled or scanWriter.fkeys not found")
+		return
+	}
+	n := 0
+	for _, fn := range c.AllFuncs("internal/server") {
+		info := fn.Info()
+		var appends []*ast.AssignStmt
+		inspectNoLit(fn.Decl.Body, func(x ast.Node) bool {
+			as, ok := x.(*ast.AssignStmt)
+			if !ok || len(as.Lhs) != 1 || len(as.Rhs) != 1 || selField(info, as.Lhs[0]) != filled {
+				return true
+			}
+			if call, ok := ast.Unparen(as.Rhs[0]).(*ast.CallExpr); ok {
+				if id, ok := ast.Unparen(call.Fun).(*ast.Ident); ok && id.Name == "append" && len(call.Args) >= 2 {
+					appends = append(appends, as)
+				}
+			}
+			return true
+		})
+		if len(appends) == 0 {
+			continue
+		}
+		fg := newFlowGraph(info, fn.Decl.Body)
+		// the recording: a call of Insert on fkeys (possibly inside a callback literal); its anchor in the flow graph is
+		// the condition of the outermost if that contains it, or the statement itself
+		var recLocs []Loc
+		ast.Inspect(fn.Decl.Body, func(x ast.Node) bool {
+			call, ok := x.(*ast.CallExpr)
+			if !ok {
+				return true
+			}
+			se, ok := ast.Unparen(call.Fun).(*ast.SelectorExpr)
+			if !ok || se.Sel.Name != "Insert" || selField(info, se.X) != fkeys {
+				return true
+			}
+			var anchor ast.Node = call
+			for p := c.Parent(call); p != nil; p = c.Parent(p) {
+				if _, isDecl := p.(*ast.FuncDecl); isDecl {
+					break
+				}
+				if ifs, ok := p.(*ast.IfStmt); ok && enclosingFuncLit(c.Program, ifs) == nil {
+					anchor = ifs.Cond
+				}
+			}
+			if l := fg.LocOfOuter(anchor); l.Valid() {
+				recLocs = append(recLocs, l)
+			} else if st := outermostStmtInDecl(c, call); st != nil {
+				if l := fg.LocOfOuter(st); l.Valid() {
+					recLocs = append(recLocs, l)
+				}
+			}
+			return true
+		})
+		for _, as := range appends {
+			n++
+			key := funcName(fn.Obj) + "→" + exprStr(as.Lhs[0]) + " = append(…)"
+			al := fg.LocOf(as)
+			if !al.Valid() || len(recLocs) == 0 {
+				c.bad(key, as.Pos(), "an object is kept for the reply but its field names are never recorded in %s: the JSON reply omits fields the RESP reply shows", "scanWriter.fkeys")
+				continue
+			}
+			good := false
+			for _, rl := range recLocs {
+				if fg.Dominates(rl, al) {
+					good = true
+					continue
+				}
+				skipped, _ := fg.Reach(PathQuery{From: al, Target: func(l Loc) bool { return isReturn(l.Node) }, Avoid: func(l Loc) bool { return l.Block == rl.Block && l.Idx == rl.Idx }})
+				if !skipped {
+					good = true
+				}
+			}
+			c.check(good, key, as.Pos(), "the recording of the object's field names (or its guard) lies on every path that keeps the object", "an object can be kept for the reply and the function left without recording its field names (a return lies between the two): for the object that fills the page the JSON reply lacks the field names — and values — that only it carries, while the RESP reply shows them")
+		}
+	}
+	c.stat("kept_object_sites", n)
+}
+
+// outermostStmtInDecl: the statement of the declared function's own body (not of a literal) that contains n.
+func outermostStmtInDecl(c *Ctx, n ast.Node) ast.Node {
+	var last ast.Node
+	for p := c.Parent(n); p != nil; p = c.Parent(p) {
+		if _, isDecl := p.(*ast.FuncDecl); isDecl {
+			return last
+		}
+		if st, ok := p.(ast.Stmt); ok && enclosingFuncLit(c.Program, st) == nil {
+			if _, isBlock := st.(*ast.BlockStmt); !isBlock {
+				last = st
+			}
+		}
+	}
+	return last
+}
+
+func init() {
+	register(&Rule{ID: "R7.no-shared-retained-address", Props: []string{"C14", "C05", "C10", "C07"}, Floor: 1,
+		Text: "the details of an applied write are handed to the live-fence queue by pointer and read later, after the writer has moved on: where a loop passes the address of a variable (&d) to a function that retains it (stores its parameter into a field, appends it to a field's slice or sends it: writeAOF keeps the command details in Server.lstack) and assigns that variable in the loop, the variable is declared inside the loop — declared outside, every retained pointer of one sweep aliases one struct and the consumers see the last iteration's details for all of them (a live fence gets the last expired object's 'del' k times and none for the others)",
+		Run:  ruleNoSharedRetainedAddress})
+}
+
+// retainsParam: function f keeps its i-th parameter beyond the call: it stores it into a struct field, appends it to a
+// field's slice, sends it on a channel, or hands it to a function that does (depth 2).
+func (c *Ctx) retainsParam(f *types.Func, i int, depth int) bool {
+	fi := c.FuncOf(f)
+	if fi == nil || fi.Decl.Body == nil || depth > 2 {
+		return false
+	}
+	sig := f.Type().(*types.Signature)
+	if i >= sig.Params().Len() {
+		return false
+	}
+	p := sig.Params().At(i)
+	info := fi.Info()
+	isP := func(e ast.Expr) bool {
+		id, ok := ast.Unparen(e).(*ast.Ident)
+		return ok && info.ObjectOf(id) == p
+	}
+	hit := false
+	ast.Inspect(fi.Decl.Body, func(n ast.Node) bool {
+		switch x := n.(type) {
+		case *ast.AssignStmt:
+			if len(x.Lhs) == len(x.Rhs) {
+				for k, l := range x.Lhs {
+					if selField(info, l) == nil {
+						continue
+					}
+					r := ast.Unparen(x.Rhs[k])
+					if isP(r) {
+						hit = true
+					}
+					if call, ok := r.(*ast.CallExpr); ok {
+						if id, ok := ast.Unparen(call.Fun).(*ast.Ident); ok && id.Name == "append" {
+							for _, a := range call.Args[1:] {
+								if isP(a) {
+									hit = true
+								}
+							}
+						}
+					}
+				}
+			}
+		case *ast.SendStmt:
+			if isP(x.Value) {
+				hit = true
+			}
+		case *ast.CallExpr:
+			if g := callee(info, x); g != nil && g != f {
+				for k, a := range x.Args {
+					if isP(a) && c.retainsParam(g, k, depth+1) {
+						hit = true
+					}
+				}
+			}
+		}
+		return !hit
+	})
+	return hit
+}
+
+func ruleNoSharedRetainedAddress(c *Ctx) {
+	nSites := 0
+	retainers := 0
+	for _, fn := range c.AllFuncs("internal/server") {
+		info := fn.Info()
+		ast.Inspect(fn.Decl.Body, func(n ast.Node) bool {
+			var body *ast.BlockStmt
+			switch l := n.(type) {
+			case *ast.ForStmt:
+				body = l.Body
+			case *ast.RangeStmt:
+				body = l.Body
+			default:
+				return true
+			}
+			loop := n
+			assigned := map[types.Object]bool{}
+			inspectNoLit(body, func(m ast.Node) bool {
+				if as, ok := m.(*ast.AssignStmt); ok {
+					for _, l := range as.Lhs {
+						if id, ok := ast.Unparen(l).(*ast.Ident); ok {
+							assigned[info.ObjectOf(id)] = true
+						}
+					}
+				}
+				return true
+			})
+			inspectNoLit(body, func(m ast.Node) bool {
+				call, ok := m.(*ast.CallExpr)
+				if !ok {
+					return true
+				}
+				g := callee(info, call)
+				if g == nil {
+					return true
+				}
+				for k, a := range call.Args {
+					ue, ok := ast.Unparen(a).(*ast.UnaryExpr)
+					if !ok || ue.Op != token.AND {
+						continue
+					}
+					id, ok := ast.Unparen(ue.X).(*ast.Ident)
+					if !ok {
+						continue
+					}
+					v, ok := info.ObjectOf(id).(*types.Var)
+					if !ok || v.IsField() || !c.retainsParam(g, k, 0) {
+						continue
+					}
+					retainers++
+					if !assigned[v] {
+						continue
+					}
+					nSites++
+					key := funcName(fn.Obj) + "→" + g.Name() + "(&" + id.Name + ")"
+					if loop.Pos() <= v.Pos() && v.Pos() < loop.End() {
+						c.ok(key, call.Pos(), true, "the variable whose address %s retains is declared in the iteration that fills it", g.Name())
+					} else {
+						c.bad(key, call.Pos(), "%s retains &%s, and %s is declared outside the loop and assigned in every iteration: all pointers retained in one run of the loop refer to the same variable, which holds the last iteration's value by the time the consumers (the live-fence queue) read them", g.Name(), id.Name, id.Name)
+					}
+				}
+				return true
+			})
+			return true
+		})
+	}
+	c.stat("retained_addresses_in_loops", nSites)
+	if nSites == 0 {
+		c.und("sites", 0, "no loop hands the address of a loop-assigned variable to a retaining function (%d retaining calls seen): the sweepers' apply loops were not found", retainers)
+	}
 }
